@@ -740,7 +740,7 @@ func (o *operation) readRequestMessage(rw *responseWriter, reader io.Reader, msg
 		msgLen, compressed, err = o.processRequestEnvelope(envBuf)
 		if err != nil {
 			if rw != nil {
-				rw.reportError(err)
+				rw.reportReadError(err)
 			}
 			return err
 		}
@@ -752,7 +752,7 @@ func (o *operation) readRequestMessage(rw *responseWriter, reader io.Reader, msg
 		limit, grow, makeError, limitErr := o.determineReadLimit()
 		if limitErr != nil {
 			if rw != nil {
-				rw.reportError(limitErr)
+				rw.reportReadError(limitErr)
 			}
 			return limitErr
 		}
@@ -929,7 +929,7 @@ func (r *envelopingReader) prepareNext() error {
 			length := r.rw.op.contentLen
 			if length > limit {
 				err := bufferLimitError(limit)
-				r.rw.reportError(err)
+				r.rw.reportReadError(err)
 				return err
 			}
 			r.current = &hardLimitReader{r: r.r, rw: r.rw, limit: r.rw.op.contentLen, makeError: contentLengthError}
@@ -956,14 +956,14 @@ func (r *envelopingReader) prepareNext() error {
 				// Without envelopes, the backend would take the empty body
 				// for an empty message that the client never sent.
 				err = errNoRequestMessage()
-				r.rw.reportError(err)
+				r.rw.reportReadError(err)
 			}
 			return err
 		}
 		env, err = r.rw.op.clientEnveloper.decodeEnvelope(envBytes)
 		if err != nil {
 			err = malformedRequestError(err)
-			r.rw.reportError(err)
+			r.rw.reportReadError(err)
 			return err
 		}
 		r.current = io.LimitReader(r.r, int64(env.length))
@@ -1041,7 +1041,7 @@ func (r *transformingReader) Read(data []byte) (n int, err error) {
 				// Without envelopes, the backend would take the empty body
 				// for an empty message that the client never sent.
 				r.err = errNoRequestMessage()
-				r.rw.reportError(r.err)
+				r.rw.reportReadError(r.err)
 				return 0, r.err
 			default:
 				r.err = err
@@ -1050,7 +1050,7 @@ func (r *transformingReader) Read(data []byte) (n int, err error) {
 		}
 		if err := r.prepareMessage(); err != nil {
 			r.err = err
-			r.rw.reportError(err)
+			r.rw.reportReadError(err)
 			return 0, err
 		}
 	}
@@ -1123,6 +1123,13 @@ type responseWriter struct {
 	// trailers before writing the first bytes of data (like Connect
 	// and REST unary).
 	buf *bytes.Buffer
+
+	// A handler may read the request body on another goroutine than the one
+	// that writes the response. An error found while reading is therefore
+	// only recorded here by the reader; it is reported to the client by
+	// whoever uses the response writer next (or when the handler returns).
+	readErrMu sync.Mutex
+	readErr   error
 }
 
 func (w *responseWriter) Header() http.Header {
@@ -1141,6 +1148,11 @@ func (w *responseWriter) Header() http.Header {
 func (w *responseWriter) Write(data []byte) (n int, err error) {
 	if !w.headersWritten {
 		w.WriteHeader(http.StatusOK)
+	}
+	if ew, ok := w.w.(*envelopingWriter); !ok || ew.atMessageBoundary() {
+		// (not in the middle of a message whose envelope the client
+		// already has: the end of the stream cannot be framed there)
+		w.reportPendingReadError()
 	}
 	if w.err != nil {
 		return 0, w.err
@@ -1187,6 +1199,13 @@ func (w *responseWriter) WriteHeader(statusCode int) {
 	// Remove other headers that might mess up the next leg
 	w.Header().Del("Content-Encoding")
 	w.Header().Del("Accept-Encoding")
+
+	// The handler's own protocol headers are out of the way now: if reading
+	// the request failed, that is the outcome of the RPC.
+	w.reportPendingReadError()
+	if w.endWritten {
+		return
+	}
 
 	w.respMeta = &respMeta
 	if respMeta.compression == CompressionIdentity {
@@ -1295,6 +1314,28 @@ func (w *responseWriter) flushMessage() {
 	w.flusher.Flush()
 }
 
+// reportReadError records an error found while reading the request body. It
+// may be called from any goroutine; see readErr.
+func (w *responseWriter) reportReadError(err error) {
+	w.readErrMu.Lock()
+	if w.readErr == nil {
+		w.readErr = err
+	}
+	w.readErrMu.Unlock()
+}
+
+// reportPendingReadError reports the error recorded by reportReadError, if
+// any. It must be called from the goroutine that uses the response writer.
+func (w *responseWriter) reportPendingReadError() {
+	w.readErrMu.Lock()
+	err := w.readErr
+	w.readErr = nil
+	w.readErrMu.Unlock()
+	if err != nil {
+		w.reportError(err)
+	}
+}
+
 func (w *responseWriter) reportError(err error) {
 	var end responseEnd
 	if errors.As(err, &end.err) {
@@ -1383,6 +1424,7 @@ func (w *responseWriter) close() {
 		// the client sees, not an addition to the handler's own trailers.
 		trailer = httpExtractTrailers(w.Header(), w.respMeta.pendingTrailerKeys)
 	}
+	w.reportPendingReadError()
 	if !w.endWritten && w.contentLen >= 0 && w.bodyLen != int64(w.contentLen) {
 		// The declared length was taken out of the headers, so no HTTP server
 		// will enforce it anymore.
@@ -1605,6 +1647,15 @@ func (w *envelopingWriter) Close() error {
 	w.current = nil
 	w.err = errors.New("body is closed")
 	return nil
+}
+
+// atMessageBoundary reports whether everything forwarded to the client so far
+// ends with a complete message.
+func (w *envelopingWriter) atMessageBoundary() bool {
+	if !w.initialized {
+		return true
+	}
+	return w.rw.op.serverEnveloper != nil && w.writingEnvelope && w.remainingBytes == envelopeLen
 }
 
 func (w *envelopingWriter) maybeInit() {
@@ -1960,7 +2011,7 @@ func (h *hardLimitReader) Read(data []byte) (n int, err error) {
 	if h.read > h.limit && (err == nil || errors.Is(err, io.EOF)) {
 		err := h.error()
 		if h.rw != nil {
-			h.rw.reportError(err)
+			h.rw.reportReadError(err)
 		}
 		return n, err
 	}
